@@ -84,6 +84,10 @@ def statics_inventory(run, f):
         run.require(k is not None, "O12.4", "static-classified:%s" % s["def"], "static %s: %s is global state of a kind the isolation argument does not cover" % (s["def"], f.ty(s["ty"]).s),
                     k or "", loc=f.span(s["span"]).loc, nontrivial="__CALLSITE" not in s["def"])
     need = {"atomic counter", "OnceLock<scalar>"}
+    from rules import c09
+    m = c09.cell_model(f)
+    if m and m[0] == "atomic":
+        need = {"atomic counter"}       # the configured default lives in an atomic with an "unconfigured" marker (C09 O9.4 decides its discipline)
     run.require(need <= set(kinds), "O12.4", "expected-statics-present", "expected statics missing: %s" % sorted(need - set(kinds)), "inventory: %s" % {k: len(v) for k, v in kinds.items()})
     run.sample({"rule": "O12.4", "config": run.cur_config, "statics": {k: (v if len(v) < 4 else len(v)) for k, v in kinds.items()}})
 
